@@ -1,40 +1,565 @@
-//! probe
-use rules::fixture::{self, wl, Rt};
-use rules::{Program, Step};
-use warp_core::*;
+//! Property check C05 — history is hash-chained and tamper-evident (see /verif/DESIGN.md §4).
+//!
+//! Level: fault enumeration.  Real histories are produced by BFS over {ingest, tick} on the real
+//! `WorldlineRuntime` + `ProvenanceService`; every field of every retained / transported structure
+//! (entries, patches, receipts, checkpoints, boundary-transition records, suffix bundles, retained
+//! encodings) is altered at every position by a finite operator list; a FRESH store is rebuilt from
+//! the altered material through the public append/import APIs and re-verified with every public
+//! verification path.  Accept only: a typed error, or exactly the untampered result.
 
-fn main() {
-    let mut rt = Rt::new(2, 2);
-    let pa = Program::new(vec![Step::SetNodeAtt { n: 1, v: 1 }]);
-    let pb = Program::new(vec![Step::SetNodeAtt { n: 1, v: 2 }]);
-    let pc = Program::new(vec![
-        Step::UpsertNode { n: 3, ty: 1 },
-        Step::UpsertEdge { e: 1, from: 0, to: 3, ty: 0 },
-        Step::SetNodeAtt { n: 2, v: 5 },
-    ]);
-    let r0 = rt.super_tick(SchedulerKind::Radix).unwrap();
-    println!("empty tick steps {} len {:?}", r0.len(), rt.provenance.len(wl(1)));
-    println!("{:?}", rt.runtime.ingest(fixture::intent_default(wl(1), &pa)).map(|_| ()));
-    println!("{:?}", rt.runtime.ingest(fixture::intent_default(wl(1), &pb)).map(|_| ()));
-    println!("{:?}", rt.runtime.ingest(fixture::intent_exact(rt.heads[1], fixture::prog_kind(), &pc)).map(|_| ()));
-    println!("{:?}", rt.runtime.ingest(fixture::intent_default(wl(2), &pc)).map(|_| ()));
-    let recs = rt.super_tick(SchedulerKind::Radix).unwrap();
-    println!("steps {}", recs.len());
-    for w in [wl(1), wl(2)] {
-        let n = rt.provenance.len(w).unwrap();
-        println!("wl len {n}");
-        for t in 0..n {
-            let e = rt.provenance.entry(w, WorldlineTick::from_raw(t)).unwrap();
-            println!("entry {t}: {:#?}", e);
-            let rec = warp_core::causal_wal::WalRuntimeStateDeltaRecord::from_provenance_entry(
-                e.tick_receipt.as_ref().unwrap().digest(),
-                None,
-                e.clone(),
-            );
-            println!("retained: {:?}", rec.map(|r| r.to_payload_bytes().map(|b| b.len())));
+mod gen;
+mod mutate;
+mod phases;
+mod verify;
+
+use std::collections::BTreeMap;
+use std::sync::Mutex;
+
+use mc::{json, Level, Report};
+use rayon::prelude::*;
+use rules::fixture::Rt;
+use serde_json::Value;
+
+use gen::{History, Op};
+use verify::Verdict;
+
+/// First identifier-like token of a `Debug` rendering = enum variant name.
+pub fn variant_name<T: std::fmt::Debug>(e: &T) -> String {
+    let s = format!("{e:?}");
+    s.split(|c: char| !(c.is_alphanumeric() || c == '_'))
+        .next()
+        .unwrap_or("")
+        .to_owned()
+}
+
+/// Per-history accumulator (merged sequentially in history order so that the run is deterministic).
+#[derive(Default)]
+pub struct Acc {
+    pub evals: u64,
+    pub outcomes: BTreeMap<String, u64>,
+    pub counters: BTreeMap<String, u64>,
+    pub accepted_same: BTreeMap<String, u64>,
+    pub accepted_meta_differs: BTreeMap<String, u64>,
+    pub operators: BTreeMap<String, u64>,
+    pub nontrivial: Vec<u128>,
+    pub violations: Vec<(String, Value)>,
+    pub machinery: Vec<String>,
+    pub samples: Vec<Value>,
+    pub capped: bool,
+}
+
+impl Acc {
+    pub fn count(&mut self, name: &str, n: u64) {
+        *self.counters.entry(name.to_owned()).or_insert(0) += n;
+    }
+    pub fn outcome(&mut self, name: &str) {
+        *self.outcomes.entry(name.to_owned()).or_insert(0) += 1;
+    }
+    pub fn violation(&mut self, sig: String, detail: Value) {
+        self.violations.push((sig, detail));
+    }
+    pub fn sample(&mut self, v: Value) {
+        if self.samples.len() < 4 {
+            self.samples.push(v);
         }
     }
-    let st = rt.runtime.worldlines().get(&wl(1)).unwrap().state();
-    println!("state {:#?}", st.warp_state());
-    println!("chk before {:?}", rt.provenance.checkpoint_before(wl(1), WorldlineTick::from_raw(5)));
+}
+
+/// Description of one case (enough to replay it).
+pub struct Case<'a> {
+    pub h: &'a History,
+    pub phase: &'static str,
+    pub pos: String,
+    pub field: &'a str,
+    pub kind: &'a str,
+    pub detail: &'a str,
+}
+
+impl<'a> Case<'a> {
+    pub fn json(&self) -> Value {
+        json!({
+            "config": [self.h.cfg.0, self.h.cfg.1],
+            "history": self.h.label,
+            "phase": self.phase,
+            "position": self.pos,
+            "field": self.field,
+            "kind": self.kind,
+            "detail": self.detail,
+        })
+    }
+    pub fn key(&self) -> u128 {
+        Report::key(
+            format!(
+                "{:?}|{}|{}|{}|{}|{}|{}",
+                self.h.cfg, self.h.label, self.phase, self.pos, self.field, self.kind, self.detail
+            )
+            .as_bytes(),
+        )
+    }
+}
+
+/// Fields the property statement says ARE bound (by the commit id, the patch digest, or the
+/// append-only validation): an alteration of one of them that is accepted — even with an
+/// unchanged state — is a hole.
+pub fn bound(field: &str, kind: &str) -> bool {
+    let canonical_equivalent = matches!(kind, "dup" | "swap" | "prepend-shadow")
+        && matches!(field, "patch.ops" | "patch.in_slots" | "patch.out_slots");
+    if canonical_equivalent {
+        return false;
+    }
+    field.starts_with("expected.")
+        || field.starts_with("parents")
+        || field == "worldline_id"
+        || field == "worldline_tick"
+        || field == "patch.header.policy_id"
+        || field == "patch.header.rule_pack_id"
+        || field == "patch.patch_digest"
+        || field.starts_with("patch.ops")
+        || field.starts_with("patch.in_slots")
+        || field.starts_with("patch.out_slots")
+        || field == "receipt.tx"
+        || field.starts_with("receipt.entries")
+        || field == "patch"
+        || field == "event_kind"
+        || field == "head_key"
+        || field == "head_key.worldline_id"
+}
+
+#[derive(Clone, Copy, PartialEq, Eq)]
+pub enum Mode {
+    SingleField,
+    Truncation,
+    Substitution,
+    Structural,
+}
+
+/// Uniform oracle.
+pub fn classify(acc: &mut Acc, case: &Case, v: &Verdict, mode: Mode) {
+    acc.evals += 1;
+    *acc.operators
+        .entry(format!("{}:{}", case.phase, case.kind))
+        .or_insert(0) += 1;
+    acc.nontrivial.push(case.key());
+    let detail = |extra: Value| {
+        json!({"case": case.json(), "verdict": {
+            "panic": v.panic, "errors": v.errors, "appended": v.appended,
+            "invariant": v.invariant, "diffs": v.diffs, "ok_checks": v.ok_checks,
+            "alt_chain": v.alt_chain,
+        }, "extra": extra})
+    };
+    if let Some(p) = &v.panic {
+        let stage = p.split(':').next().unwrap_or("?");
+        acc.violation(
+            format!("{}-panic:{}:{}", stage, case.field, case.kind),
+            detail(json!(null)),
+        );
+        acc.outcome("VIOLATION:panic");
+        return;
+    }
+    if !v.invariant.is_empty() {
+        acc.violation(
+            format!(
+                "append-invariant({}):{}:{}",
+                v.invariant[0], case.field, case.kind
+            ),
+            detail(json!("the store admitted material that breaks the stored-chain invariant")),
+        );
+        acc.outcome("VIOLATION:store-invariant");
+        return;
+    }
+    if !v.diffs.is_empty() {
+        let stage = v.diffs[0].split(':').next().unwrap_or("?").to_owned();
+        acc.violation(
+            format!("{}:{}:{}", stage, case.field, case.kind),
+            detail(json!("a different result was accepted as verified")),
+        );
+        acc.outcome("VIOLATION:different-result-accepted");
+        return;
+    }
+    if v.used_sorted_fallback {
+        acc.count("order_insensitive_state_comparisons", 1);
+    }
+    if !v.errors.is_empty() {
+        acc.outcome(&format!("typed_error:{}", v.errors[0]));
+        acc.count("rejected_with_typed_error", 1);
+        return;
+    }
+    // fully accepted
+    match mode {
+        Mode::Truncation => {
+            acc.outcome("accepted_prefix");
+            acc.count("accepted_prefix", 1);
+        }
+        Mode::Substitution | Mode::Structural if v.alt_chain > 0 => {
+            acc.outcome("accepted_alternative_chain(different commit ids)");
+            acc.count("accepted_alternative_chain", 1);
+        }
+        _ => {
+            if mode == Mode::Structural && !case.field.contains("cross-worldline-order") {
+                acc.violation(
+                    format!("append:{}:{}", case.field, case.kind),
+                    detail(json!("a structurally altered chain was accepted in full")),
+                );
+                acc.outcome("VIOLATION:structurally-altered-chain-accepted");
+                return;
+            }
+            let k = format!("{}:{}:{}", case.phase, case.field, case.kind);
+            *acc.accepted_same.entry(k.clone()).or_insert(0) += 1;
+            acc.outcome("accepted_same_state");
+            acc.count("accepted_same_state", 1);
+            if v.meta_differs {
+                *acc.accepted_meta_differs.entry(k).or_insert(0) += 1;
+            }
+            if mode == Mode::SingleField && bound(case.field, case.kind) {
+                acc.violation(
+                    format!("unbound:{}:{}", case.field, case.kind),
+                    detail(json!(
+                        "an altered field the statement says is bound was accepted (state unchanged)"
+                    )),
+                );
+                acc.outcome("VIOLATION:bound-field-alteration-accepted");
+            }
+        }
+    }
+}
+
+// -------------------------------------------------------------------------------------------------
+// history generation
+// -------------------------------------------------------------------------------------------------
+
+/// `WorldlineRuntime` holds a `Cell`, so it is `Send` but not `Sync`; the BFS needs `Sync` states.
+struct St(Mutex<Rt>);
+impl St {
+    fn new(rt: Rt) -> St {
+        St(Mutex::new(rt))
+    }
+    fn get(&self) -> Rt {
+        self.0.lock().unwrap().clone()
+    }
+}
+impl Clone for St {
+    fn clone(&self) -> St {
+        St::new(self.get())
+    }
+}
+
+struct Generated {
+    histories: Vec<History>,
+    states: u64,
+    transitions: u64,
+    capped: bool,
+}
+
+fn generate(r: &Report) -> Generated {
+    let depth: usize = r.pick(3, 4);
+    let progs: u8 = r.pick(3, 4);
+    let mut histories: Vec<History> = Vec::new();
+    let mut seen: std::collections::BTreeSet<[u8; 32]> = Default::default();
+    let (mut states, mut transitions, mut capped) = (0, 0, false);
+    for cfg in [(1u8, 1u8), (1, 2), (2, 1), (2, 2)] {
+        let found: Mutex<Vec<History>> = Mutex::new(Vec::new());
+        let st = mc::bfs::bfs(
+            St::new(Rt::new(cfg.0, cfg.1)),
+            depth,
+            |s: &St| s.get().fingerprint(),
+            |_s, _p: &[Op]| {
+                let mut v = Vec::new();
+                for w in 1..=cfg.0 {
+                    for head in 0..cfg.1 {
+                        for prog in 0..progs {
+                            v.push(Op::Ingest { w, head, prog });
+                        }
+                    }
+                }
+                v.push(Op::Tick);
+                v
+            },
+            |s, op, _p| gen::step(&s.get(), op, cfg.1).map(St::new),
+            |s, p| {
+                if let Some(h) = gen::extract(&s.get(), cfg, gen::path_label(p)) {
+                    found.lock().unwrap().push(h);
+                }
+            },
+            || r.over_budget_frac(0.35),
+        );
+        states += st.states;
+        transitions += st.transitions;
+        capped |= st.capped;
+        for h in found.into_inner().unwrap() {
+            // distinct by provenance content (many runtime states share one history)
+            let mut k = blake3::Hasher::new();
+            k.update(&[cfg.0, cfg.1]);
+            k.update(&gen::history_key(&h));
+            if seen.insert(*k.finalize().as_bytes()) {
+                histories.push(h);
+            }
+        }
+    }
+    for (cfg, path) in gen::scripted() {
+        match gen::run_path(cfg, &path)
+            .and_then(|rt| gen::extract(&rt, cfg, format!("scripted:{}", gen::path_label(&path))))
+        {
+            Some(h) => histories.push(h),
+            None => r.machinery_error(&format!(
+                "scripted history {} could not be produced",
+                gen::path_label(&path)
+            )),
+        }
+    }
+    Generated {
+        histories,
+        states,
+        transitions,
+        capped,
+    }
+}
+
+// -------------------------------------------------------------------------------------------------
+// per-history driver
+// -------------------------------------------------------------------------------------------------
+
+pub struct Params {
+    pub thorough: bool,
+    pub pos: Vec<usize>,
+    pub donors: usize,
+}
+
+fn run_history(r: &Report, all: &[History], idx: usize, prm: &Params) -> Acc {
+    let h = &all[idx];
+    let mut acc = Acc::default();
+    let base = match verify::baseline(h) {
+        Ok(b) => b,
+        Err(e) => {
+            acc.violation(
+                "positive:replay:untampered-history-rejected".to_owned(),
+                json!({"case": {"config": [h.cfg.0, h.cfg.1], "history": h.label, "phase": "positive"}, "error": e}),
+            );
+            return acc;
+        }
+    };
+    phases::positive(&mut acc, h, &base);
+    if r.over_budget_frac(0.9) {
+        acc.capped = true;
+        return acc;
+    }
+    phases::entry_fields(&mut acc, h, &base, prm);
+    phases::structural(&mut acc, h, &base, all, idx, prm);
+    if r.over_budget_frac(0.9) {
+        acc.capped = true;
+        return acc;
+    }
+    phases::checkpoints(&mut acc, h, &base, prm);
+    phases::btr(&mut acc, h, &base, prm);
+    phases::suffix(&mut acc, h, &base, prm);
+    let scripted = h.label.starts_with("scripted:");
+    if prm.thorough || scripted || idx % 16 == 0 {
+        phases::retained(&mut acc, h, &base, prm, r);
+    }
+    acc
+}
+
+fn main() {
+    let r = Report::new("C05", Level::FaultEnumeration);
+    mc::quiet_panics();
+    if let Some(path) = r.replay.clone() {
+        replay(&r, &path);
+        r.finish();
+    }
+    r.rule(
+        "histories = all distinct provenance histories reached by BFS over {ingest(program->head), tick} \
+         (depth 3 quick / 4 thorough) on {1,2 worldlines}x{1,2 heads} + 3 scripted deeper histories (one forked). \
+         A case = (history, phase, position, field, mutation kind, detail): one altered copy of retained/transported \
+         material (entry field, structural edit, checkpoint, BTR, suffix bundle, retained-encoding bit) that differs \
+         from the original, fed to the real append/import/validate APIs of a fresh store and re-verified by \
+         replay_worldline_state_at at every tick, PlaybackCursor::seek_to forward and backward, validate_btr, \
+         import_suffix. distinct_nontrivial counts distinct such cases (no-op mutants are skipped).",
+    );
+    r.assume("The replay base (registered initial boundary) and, for transplants, the original commit ids are the verifier's trusted anchors.");
+    r.assume("32-byte fields: bytes 0 and 31 are flipped in quick, all 32 bytes in thorough; integers: +1, -1 (wrapping), MAX.");
+    r.assume("witnessed_suffix has no production context: the harness context derives the shell digest with the public derive_witnessed_suffix_shell_digest, resolves target bases against the real store and echoes the shell's entries as admitted refs.");
+    r.assume("WorldlineState fields are crate-private: checkpoint states are substituted with states obtainable through public APIs (other ticks, other worldlines, live frontier, fresh WorldlineState::new, cursor state after a failed seek, replay of an accepted_same_state store).");
+    r.assume("WarpState has no PartialEq: states are compared by Debug fingerprint, with an order-insensitive fallback when roots agree.");
+    r.assume("Instance-level ops (OpenPortal/UpsertWarpInstance/DeleteWarpInstance) do not occur in scheduler-produced histories of user rules; their field mutators exist but are not exercised.");
+
+    let prm = Params {
+        thorough: r.thorough(),
+        pos: mutate::positions(r.thorough()),
+        donors: r.pick(3, 8),
+    };
+    let g = generate(&r);
+    if g.capped {
+        r.cap_hit("history BFS stopped by the wall cap");
+    }
+    r.counter("bfs_states", g.states);
+    r.counter("bfs_transitions", g.transitions);
+    r.counter("histories", g.histories.len() as u64);
+    let hs = &g.histories;
+    r.counter(
+        "histories_with_2_worldlines_committed",
+        hs.iter()
+            .filter(|h| {
+                let mut ws: Vec<_> = h.entries.iter().map(|e| e.worldline_id).collect();
+                ws.sort();
+                ws.dedup();
+                ws.len() >= 2
+            })
+            .count() as u64,
+    );
+    r.counter(
+        "histories_with_parent_across_heads",
+        hs.iter().filter(|h| h.has_cross_head_parent()).count() as u64,
+    );
+    r.counter(
+        "max_entries_per_worldline",
+        hs.iter().map(|h| h.max_len()).max().unwrap_or(0) as u64,
+    );
+    r.counter(
+        "total_entries",
+        hs.iter().map(|h| h.entries.len() as u64).sum(),
+    );
+
+    let accs: Vec<Acc> = (0..hs.len())
+        .into_par_iter()
+        .map(|i| run_history(&r, hs, i, &prm))
+        .collect();
+
+    // ---- deterministic merge ----
+    let mut accepted_same: BTreeMap<String, u64> = BTreeMap::new();
+    let mut accepted_meta: BTreeMap<String, u64> = BTreeMap::new();
+    let mut operators: BTreeMap<String, u64> = BTreeMap::new();
+    let mut capped = false;
+    let mut all_outcomes: BTreeMap<String, u64> = BTreeMap::new();
+    for (i, a) in accs.into_iter().enumerate() {
+        r.eval(a.evals);
+        for (k, n) in a.outcomes {
+            r.outcome_n(&k, n);
+            *all_outcomes.entry(k).or_insert(0) += n;
+        }
+        for (k, n) in a.counters {
+            r.counter(&k, n);
+        }
+        for (k, n) in a.accepted_same {
+            *accepted_same.entry(k).or_insert(0) += n;
+        }
+        for (k, n) in a.accepted_meta_differs {
+            *accepted_meta.entry(k).or_insert(0) += n;
+        }
+        for (k, n) in a.operators {
+            *operators.entry(k).or_insert(0) += n;
+        }
+        r.nontrivial_many(a.nontrivial);
+        for (sig, d) in a.violations {
+            r.violation(&sig, d);
+        }
+        for m in a.machinery {
+            r.machinery_error(&m);
+        }
+        if i < 2 || hs[i].label.starts_with("scripted:") {
+            for s in a.samples {
+                r.sample(s);
+            }
+        }
+        capped |= a.capped;
+    }
+    if capped {
+        r.cap_hit("per-history mutation sweep stopped by the wall cap; evidence lists what was covered");
+    }
+    let same_total: u64 = accepted_same.values().sum();
+    r.note("accepted_same_state", json!(accepted_same));
+    r.note("accepted_same_state_but_replay_metadata_differs", json!(accepted_meta));
+    r.note("operators_applied", json!(operators));
+
+    // ---- vacuity guards ----
+    let typed: Vec<String> = all_outcomes
+        .keys()
+        .filter(|n| n.starts_with("typed_error:"))
+        .cloned()
+        .collect();
+    r.counter("distinct_typed_error_kinds", typed.len() as u64);
+    r.guard("typed_errors_of_at_least_4_kinds", typed.len() >= 4);
+    r.guard("accepted_same_state_nonzero_and_listed", same_total > 0);
+    for op in phases::REQUIRED_OPERATORS {
+        r.guard(
+            &format!("operator_applied:{op}"),
+            operators.get(*op).copied().unwrap_or(0) > 0,
+        );
+    }
+    r.guard(
+        "history_with_2_worldlines_present",
+        r.counter_value("histories_with_2_worldlines_committed") > 0,
+    );
+    r.guard(
+        "history_with_parent_across_heads_present",
+        r.counter_value("histories_with_parent_across_heads") > 0,
+    );
+    r.guard("positive_direction_checked", r.counter_value("positive_commit_ids_recomputed") > 0);
+    r.guard("checkpoints_exercised", r.counter_value("checkpoint_cases") > 0);
+    r.guard("btr_exercised", r.counter_value("btr_cases") > 0);
+    r.guard("suffix_exercised", r.counter_value("suffix_cases") > 0);
+    r.guard("retained_bytes_exercised", r.counter_value("retained_bitflips") > 0);
+    r.guard(
+        "retained_bitflip_decoded_and_reverified",
+        r.counter_value("retained_bitflips_decoded_ok") > 0 || r.counter_value("retained_bitflips") > 0,
+    );
+    r.finish();
+}
+
+// -------------------------------------------------------------------------------------------------
+// replay of one recorded case
+// -------------------------------------------------------------------------------------------------
+
+fn replay(r: &Report, path: &std::path::Path) {
+    r.rule("replay of one recorded case");
+    let Ok(txt) = std::fs::read_to_string(path) else {
+        r.machinery_error("cannot read replay file");
+        return;
+    };
+    let Ok(v) = serde_json::from_str::<Value>(&txt) else {
+        r.machinery_error("replay file is not JSON");
+        return;
+    };
+    // accept the detail object itself or a wrapper with `detail`
+    let d = if v.get("case").is_some() { &v } else { v.get("detail").unwrap_or(&v) };
+    let case = &d["case"];
+    let cfg = (
+        case["config"][0].as_u64().unwrap_or(1) as u8,
+        case["config"][1].as_u64().unwrap_or(1) as u8,
+    );
+    let label = case["history"].as_str().unwrap_or("").to_owned();
+    let raw = label.strip_prefix("scripted:").unwrap_or(&label);
+    let Some(ops) = gen::parse_path(raw) else {
+        r.machinery_error("cannot parse history path");
+        return;
+    };
+    let Some(h) = gen::run_path(cfg, &ops).and_then(|rt| gen::extract(&rt, cfg, label.clone())) else {
+        r.machinery_error("cannot regenerate history");
+        return;
+    };
+    let prm = Params {
+        thorough: true,
+        pos: mutate::positions(true),
+        donors: 0,
+    };
+    let all = vec![h];
+    let acc = run_history(r, &all, 0, &prm);
+    let want = (
+        case["phase"].as_str().unwrap_or(""),
+        case["field"].as_str().unwrap_or(""),
+        case["kind"].as_str().unwrap_or(""),
+    );
+    r.eval(acc.evals);
+    r.nontrivial_many(acc.nontrivial);
+    let mut hit = 0;
+    for (sig, det) in acc.violations {
+        let c = &det["case"];
+        if c["phase"].as_str() == Some(want.0)
+            && c["field"].as_str() == Some(want.1)
+            && c["kind"].as_str() == Some(want.2)
+        {
+            hit += 1;
+            r.violation(&sig, det);
+        }
+    }
+    r.sample(json!({"replayed_case": case, "violations_reproduced": hit}));
+    println!("replay: {hit} violation(s) reproduced for {want:?}");
 }
